@@ -148,7 +148,8 @@ def pick_t(rng, kind, xs):
         v = float_dist(kind, x, x[-1] - x[0], s, i)
         if v > 0:
             return v
-    return rng.choice([0.5, 0.25, 0.125, 0.1, 0.05, 0.01, 0.3, 1.0, 2.0 ** -6])
+    # thresholds above 1 are valid too (t > 0): a normalised distance can be exactly 1.0 (complete linkage, last point), never more
+    return rng.choice([0.5, 0.25, 0.125, 0.1, 0.05, 0.01, 0.3, 1.0, 2.0 ** -6, 1.0, 1.5, 2.0, 1.0 + 2.0 ** -20, 16.0])
 
 
 def run(ctx):
